@@ -368,6 +368,20 @@ func (w *Worker) Case(name string, params any, body func(c *Case)) {
 			c.mu.Lock()
 			viol := append([]Violation(nil), c.viol...)
 			c.mu.Unlock()
+			if len(viol) == 0 {
+				// not a wall-clock verdict: the dump shows a state nothing can leave (every goroutine blocked, one of
+				// them on a library mutex), and it is the same state after a grace period
+				if w1, ok := DeadlockInDump(buf); ok {
+					time.Sleep(500 * time.Millisecond)
+					buf2 := make([]byte, 1<<20)
+					buf2 = buf2[:runtime.Stack(buf2, true)]
+					if w2, ok2 := DeadlockInDump(buf2); ok2 && w1 == w2 {
+						viol = append(viol, Violation{Kind: "hang", Sig: "library-mutex-deadlock", Detail: "every goroutine of the process is blocked and at least one is blocked for ever acquiring a mutex inside the library: " + w1})
+						w.emit(map[string]any{"type": "violation", "case": idx, "name": name, "params": params, "violations": viol, "events": tail(c.Events(), 400)})
+						viol = nil
+					}
+				}
+			}
 			if len(viol) != 0 {
 				// the case recorded a violation and then got stuck (e.g. a panic left a library mutex locked)
 				viol = append(viol, Violation{Kind: "hang", Sig: "stuck-after-violation", Detail: "the case did not finish after the violation above (watchdog)"})
